@@ -160,7 +160,11 @@ DelTxMeta(ls, op, logid) ==
 SetAcctMeta(ls, op, logid) ==
   LET a == op.addr
       na == IF HasAcct(ls, a)
-            THEN [AcctOf(ls, a) EXCEPT !.meta = Merge(@, op.meta)]
+            THEN [AcctOf(ls, a) EXCEPT !.meta = Merge(@, op.meta),
+                                        \* a metadata write is a use of the account (C18): it lowers first usage
+                                        \* when it actually changes the metadata
+                                        !.first = IF Merge(AcctOf(ls, a).meta, op.meta) # AcctOf(ls, a).meta
+                                                  THEN Min2(@, op.now) ELSE @]
             ELSE [addr |-> a, first |-> op.now, ins |-> op.now, meta |-> op.meta]
   IN Okay([ls EXCEPT !.accts = {x \in ls.accts : x.addr # a} \cup {na},
                      !.logs = Append(@, NewLog(ls, logid, "SET_METADATA", op.now, op.ik, 0, a, "", op.meta))], 0)
@@ -178,6 +182,17 @@ Effect(ls, op, txid, logid) ==
     [] op.k = "untxmeta" -> DelTxMeta(ls, op, logid)
     [] op.k = "acmeta"   -> SetAcctMeta(ls, op, logid)
     [] op.k = "unacmeta" -> DelAcctMeta(ls, op, logid)
+
+\* Import (C11, C12): replays the exported journal of a source ledger (given here as the source's state)
+\* into this ledger.  Accepted only while the ledger has never accepted a write (`used` = FALSE) and only if
+\* every imported log comes after the logs it already holds; the copy then exposes exactly what the source
+\* exposes.  A refused import changes nothing.
+ImportOp(ls, used, src) ==
+  IF used THEN Fail(ls, "import")
+  ELSE IF Len(src.logs) = 0 THEN Okay(ls, 0)
+  ELSE IF Len(ls.logs) > 0 /\ src.logs[1].id <= MaxLogId(ls) THEN Fail(ls, "import")
+  ELSE IF Len(ls.logs) = 0 THEN Okay(src, 0)
+  ELSE Fail(ls, "import_partial_unsupported_by_spec")
 
 \* iks: function idempotency key -> [ikin, id] remembered by the specification (what input created the log)
 Apply(ls, iks, op, txid, logid) ==
